@@ -72,7 +72,11 @@ func (r *responseStorer) StoreResponse(
 		ReceivedAt:  respTime,
 		ID:          responseID,
 	}
-	_ = r.cache.Set(responseID, respEntry)
+	if err := r.cache.Set(responseID, respEntry); err != nil {
+		// Nothing was stored (e.g. the body could not be read completely): do
+		// not leave a reference to it in the index.
+		return err
+	}
 
 	switch {
 	case refs == nil:
